@@ -12,7 +12,11 @@ import (
 	"testing"
 	"testing/synctest"
 
+	"runtime/metrics"
+
 	"github.com/ucan-wg/go-ucan/pkg/container"
+	"github.com/ucan-wg/go-ucan/token"
+	"github.com/ucan-wg/go-ucan/token/delegation"
 )
 
 // The `container` scenario: a set of sealed tokens goes through one of the
@@ -438,6 +442,7 @@ func (e *containerExec) judge(s *CStep, rd container.Reader, rerr error, ex expe
 			o.Violate("C17", "token-content-differs", "token returned under CID "+k[:16]+" differs from the token that was added", attrs)
 		}
 	}
+	e.accessorView(s, rd, attrs)
 }
 
 func (e *containerExec) allSignedContent(got map[string]string) bool {
@@ -451,6 +456,66 @@ func (e *containerExec) allSignedContent(got map[string]string) bool {
 		}
 	}
 	return true
+}
+
+var allocSample = []metrics.Sample{{Name: "/gc/heap/allocs:bytes"}}
+
+func allocNow() uint64 {
+	metrics.Read(allocSample)
+	return allocSample[0].Value.Uint64()
+}
+
+// accessorView checks the Reader's accessor API against its own map: every
+// token retrievable under its CID, typed getters consistent, nothing else.
+func (e *containerExec) accessorView(s *CStep, rd container.Reader, attrs map[string]string) {
+	o := e.o
+	nd, ni := 0, 0
+	for c, tk := range rd {
+		got, err := rd.GetToken(c)
+		if err != nil || got != tk {
+			o.Violate("C17", "accessor-view", "GetToken does not return the token stored under its CID", attrs)
+		}
+		d, derr := rd.GetDelegation(c)
+		if _, isD := tk.(*delegation.Token); isD {
+			nd++
+			if derr != nil || token.Token(d) != tk {
+				o.Violate("C17", "accessor-view", "GetDelegation does not return a stored delegation", attrs)
+			}
+		} else {
+			ni++
+			if derr == nil {
+				o.Violate("C17", "accessor-view", "GetDelegation returned something for the CID of an invocation", attrs)
+			}
+		}
+	}
+	cd, ci := 0, 0
+	for c, d := range rd.GetAllDelegations() {
+		cd++
+		if rd[c] != token.Token(d) {
+			o.Violate("C17", "accessor-view", "GetAllDelegations yields a delegation that is not in the container under that CID", attrs)
+		}
+	}
+	for c, v := range rd.GetAllInvocations() {
+		ci++
+		if rd[c] != token.Token(v) {
+			o.Violate("C17", "accessor-view", "GetAllInvocations yields an invocation that is not in the container under that CID", attrs)
+		}
+	}
+	if cd != nd || ci != ni {
+		o.Violate("C17", "accessor-view", fmt.Sprintf("GetAll* yield %d delegations and %d invocations, the container holds %d and %d", cd, ci, nd, ni), attrs)
+	}
+	inv, ierr := rd.GetInvocation()
+	switch {
+	case ni == 0 && (ierr == nil || inv != nil):
+		o.Violate("C17", "accessor-view", "GetInvocation returned an invocation from a container without one", attrs)
+	case ni == 1 && (ierr != nil || inv == nil):
+		o.Violate("C17", "accessor-view", "GetInvocation failed on a container with exactly one invocation", attrs)
+	case ni > 1 && ierr == nil:
+		o.Violate("C17", "accessor-view", "GetInvocation succeeded on a container with several invocations", attrs)
+	}
+	if _, err := rd.GetToken(missingCID("not-there")); err == nil {
+		o.Violate("C17", "accessor-view", "GetToken returned a token for a CID that is not in the container", attrs)
+	}
 }
 
 func faultLocClass(s *CStep) string {
@@ -561,7 +626,7 @@ func (e *containerExec) one(s *CStep) {
 	relaxed := false
 	textFlip := -1
 	fault := s.Fault
-	if n == 0 && fault != "" && fault != "trunc" && fault != "trailing" && fault != "text_flip" && fault != "version_flip" {
+	if n == 0 && fault != "" && fault != "trunc" && fault != "trailing" && fault != "text_flip" && fault != "version_flip" && fault != "hostile_len" {
 		fault = "trunc"
 	}
 	idx := 0
@@ -641,6 +706,29 @@ func (e *containerExec) one(s *CStep) {
 		} else {
 			out = flipBit(out, 8*1+s.Pos%(8*len(car.Header))) // inside the CAR header
 		}
+	case "hostile_len":
+		// a length prefix that declares far more than is there
+		huge := []uint64{1 << 25, 1<<25 + 1, 1 << 31, 1 << 40, 1<<63 - 1, 1<<64 - 1}[s.Pos%6]
+		if isCar {
+			bs := car.Boundaries()
+			off := bs[idx%len(bs)]
+			if n == 0 || s.Pos%7 == 0 {
+				off = 0 // the header section
+			}
+			var vb bytes.Buffer
+			putUvarint(&vb, huge)
+			_, ol, _ := getUvarint(out[off:])
+			out = append(append(append([]byte{}, out[:off]...), vb.Bytes()...), out[off+ol:]...)
+		} else if c, derr := cbDecodeAll(out); derr == nil && len(c.Kids) == 2 {
+			it := c.Kids[1] // the list head, or an entry's byte-string head
+			if n > 0 && s.Pos%2 == 0 {
+				it = c.Kids[1].Kids[idx]
+			}
+			hl := 1 + minimalWidth(headArg(it))
+			var head bytes.Buffer
+			putHead(&head, it.Major, huge, 8)
+			out = append(append(append([]byte{}, out[:it.Off]...), head.Bytes()...), out[it.Off+hl:]...)
+		}
 	case "trunc":
 		if len(out) > 0 {
 			out = out[:s.Pos%len(out)]
@@ -669,8 +757,15 @@ func (e *containerExec) one(s *CStep) {
 	}
 	var rd container.Reader
 	var rerr error
+	a0 := allocNow()
 	if guard(o, "container.From:"+s.Format, func() { rd, rerr = readContainerVariant(s.Format, s.RStream, s.Chunks, wire) }) {
 		return
+	}
+	// cumulative allocation of one container read: a coarse bound that only a
+	// declared-length-driven allocation can exceed (kept out of the event log)
+	o.Eval("C09")
+	if grown, limit := allocNow()-a0, uint64(256<<20)+8192*uint64(len(wire)); grown > limit {
+		o.ViolateQuiet("C09", "memory", fmt.Sprintf("container.From:%s allocated %d MiB on %d bytes of input (bound %d MiB)", s.Format, grown>>20, len(wire), limit>>20), map[string]string{"entry": "container.From:" + s.Format})
 	}
 	o.Logf("%s %s fault=%s entry=%d pos=%d: err=%v n=%d mustFail=%v mustSucceed=%v", s.Format, variant, fault, idx, s.Pos, rerr != nil, len(rd), ex.mustFail, ex.mustSucceed)
 	if ex.mustFail {
@@ -699,9 +794,25 @@ func flipBit2(out []byte, bit int, car *carFile, idx int) []byte {
 func genContainer(r *Rand, g GenCfg) Plan {
 	p := &ContainerPlan{}
 	p.Cast = genCast(r, g.Tier, 2, 5)
-	n := []int{0, 1, 2, 2, 3, 4, 6, 8}[r.Intn(8)]
-	for i := 0; i < n; i++ {
-		p.Tokens = append(p.Tokens, genTokSpec(r, len(p.Cast), fmt.Sprintf("t%d", i), r.Chance(0.3)))
+	n := []int{0, 1, 2, 2, 3, 4, 6, 8, 17, 33, 70}[r.Intn(11)]
+	if n > 8 {
+		// larger sets: cheap same-shaped Ed25519 delegations
+		p.Cast = nil
+		for i := 0; i < 8; i++ {
+			p.Cast = append(p.Cast, Principal{"ed25519", i})
+		}
+		for i := 0; i < n; i++ {
+			ts := uniformDlgSpec(i)
+			ts.Dlg.Label = fmt.Sprintf("u%03d", i)
+			if i%5 == 4 {
+				ts = TokSpec{Kind: "inv", Inv: &InvSpec{Label: fmt.Sprintf("v%03d", i), Iss: i, Sub: i + 1, Aud: -1, Cmd: "/a", NonceLen: 12}}
+			}
+			p.Tokens = append(p.Tokens, ts)
+		}
+	} else {
+		for i := 0; i < n; i++ {
+			p.Tokens = append(p.Tokens, genTokSpec(r, len(p.Cast), fmt.Sprintf("t%d", i), r.Chance(0.3)))
+		}
 	}
 	p.AddOrder = r.Perm(n)
 	mkChunks := func() []int {
@@ -719,7 +830,7 @@ func genContainer(r *Rand, g GenCfg) Plan {
 	for i := r.Range(1, 3); i > 0; i-- {
 		p.Steps = append(p.Steps, CStep{Op: "roundtrip", Format: Pick(r, containerAPIs()), WStream: r.Chance(0.5), RStream: r.Chance(0.5), Chunks: mkChunks(), Perm: r.Perm(n)})
 	}
-	faults := []string{"data_flip", "data_flip", "data_flip_relabel", "data_flip_relabel", "cid_flip", "swap_cids", "foreign_entry", "dup_entry", "drop_byte", "len_flip", "version_flip", "trunc", "trailing", "text_flip"}
+	faults := []string{"hostile_len", "data_flip", "data_flip", "data_flip_relabel", "data_flip_relabel", "cid_flip", "swap_cids", "foreign_entry", "dup_entry", "drop_byte", "len_flip", "version_flip", "trunc", "trailing", "text_flip"}
 	for i := r.Range(2, 12); i > 0; i-- {
 		pos := r.Intn(1 << 13)
 		if r.Chance(0.3) {
